@@ -141,6 +141,7 @@ def snapshot(doc):
 def record_import(lines, eol='\n', final_eol=True):
     """Returns (events, doc or None).  events: the line events with `obs`, followed by an 'end' event."""
     import kernpy as kp
+    _ARGS.clear()              # a new session: new argument objects
     sur = [i for i, e in enumerate(lines) if e['ev'] in ('surplus', 'unsupported')]
     events = []
     if sur:
@@ -200,10 +201,19 @@ def dumps_args(types=None, ids=None, inc=None, exc=None, enc='kern', frm=None, t
             'hasfrom': frm is not None, 'from': frm if frm is not None else 0, 'hasto': to is not None, 'to': to if to is not None else 0}
 
 
+_ARGS = {}
+
+
 def _coll(names, form):
+    """The collection handed to the API as include / exclude / filter.  Within one recorded session the SAME object is handed in
+    whenever the same selection recurs in the same form (a caller keeps its sets): the library must not have changed it."""
     import kernpy as kp
-    xs = [kp.TokenCategory[n] for n in names]
-    return {0: set, 1: list, 2: tuple}[form % 3](xs)
+    kind = {0: set, 1: list, 2: tuple}[form % 3]
+    key = (tuple(names), form % 3)
+    obj = _ARGS.get(key)
+    if obj is None:
+        obj = _ARGS[key] = kind(kp.TokenCategory[n] for n in names)
+    return obj
 
 
 def real_dumps(doc, a, form=0, explicit_defaults=False):
